@@ -1,5 +1,6 @@
 """Shape analysis of the graph runners (shared by C05, C06, C07)."""
 from .common import *
+from .common import _container_root
 from .mir import peel, walk, show, E
 
 WORK = "block::Block::work"
@@ -29,8 +30,25 @@ def runner_bodies(facts):
         if b.kind == "traitimpl" and b.trait == RUN_TRAIT and b.name == "run":
             out.append(b)
             out.extend(facts.closures_in(b))
+    # `extract method` on the scheduling loop: a runner body that does not call work() itself but through a crate-local helper
+    # (`work_once(b, ..)? -> Activity`) is analysed with that helper substituted in (inline.py); the helper is then not a
+    # runner body of its own
+    from . import inline, effects
+    absorbed = set()
+    for i, b in enumerate(list(out)):
+        if _has_work_call(b):
+            continue
+        def pick(hb, _seen=None):
+            if _has_work_call(hb):
+                return True
+            return any(_has_work_call(h2) for _, t2 in hb.calls() for q2 in Body.callee_qs(t2) for h2 in facts.by_q.get(q2, []) if h2.kind != "closure")
+        nb, inl = inline.inline_body(facts, b, pick)
+        if inl and _has_work_call(nb):
+            effects._FACTS_FOR_VERDICTS[id(nb)] = facts
+            out[i] = nb
+            absorbed.update(inl)
     cg = CallGraph(facts)
-    reach = cg.reachable_bodies([b.q for b in out])
+    reach = cg.reachable_bodies([b.q for b in out]) - absorbed
     have = {b.path for b in out}
     for b in facts.bodies:
         if b.q in reach and b.path not in have and _has_work_call(b):
@@ -79,8 +97,12 @@ class WorkSite:
         self.arms = {}
         self._find()
 
-    def _is_work_value(self, e):
+    def _is_work_value(self, e, depth=0):
         e = peel(e)
+        if e is not None and e.k == "call" and e.args and depth < 4 and (e.q or "").startswith("std::result::Result::") and \
+                (e.q or "").split("::")[-1] in ("inspect_err", "inspect", "map_err"):
+            # wrappers that keep Ok/Err-ness and the Ok payload: `b.work().inspect_err(|e| ..)?`
+            return self._is_work_value(e.args[0], depth + 1)
         return e is not None and e.k == "call" and e.q == WORK and e.bb == self.wbb
 
     def _find(self):
@@ -182,4 +204,26 @@ def finite_next_blocks(body):
         r = t["f"].get("resolved")
         if r and r.get("self_adt") in FINITE_ITER_NEXT_ADTS:
             out.append(bb)
+    return out
+
+
+def finite_pop_blocks(body, comp):
+    """Blocks of the loop `comp` that take one element out of a Vec/VecDeque (`while let Some(x) = v.pop()`), provided
+    nothing is added to that container inside the loop: the loop then ends by exhaustion like an iterator's"""
+    out = []
+    for bb, t in body.calls():
+        if bb not in comp or not t["args"]:
+            continue
+        q = t["f"].get("q") or ""
+        if t["f"].get("name") in ("pop", "pop_front", "pop_back") and (q.startswith("std::vec::Vec::") or q.startswith("std::collections::VecDeque::")):
+            root = _container_root(body.operand_expr(t["args"][0]))
+            if root is None:
+                continue
+            grows = False
+            for b2, t2 in body.calls():
+                if b2 in comp and t2["args"] and t2["f"].get("name") in ("push", "push_back", "push_front", "insert", "extend", "append", "extend_from_slice") \
+                        and _container_root(body.operand_expr(t2["args"][0])) == root:
+                    grows = True
+            if not grows:
+                out.append(bb)
     return out
